@@ -34,9 +34,15 @@ class World(BaseWorld):
                 ops.append({'op': 'cost', 'kind': ro.choice(['big', 'spike', 'sign', 'small']), 'amp': ro.choice([1.0, 30.0, 1e3])})
         nsolve = ro.choice([1, 1, 1, 2])
         for s in range(nsolve):
-            if s > 0 and ro.random() < 0.5:
-                # the user refines / coarsens the grid and solves again in the same interpreter (same length, same diameters)
-                ops.append({'op': 'regrid', 'factor': ro.choice([0.5, 0.5, 2.0])})
+            if s > 0:
+                r_ = ro.random()
+                if r_ < 0.3:
+                    # the user refines / coarsens the grid and solves again in the same interpreter (same length, same diameters)
+                    ops.append({'op': 'regrid', 'factor': ro.choice([0.5, 0.5, 2.0])})
+                elif r_ < 0.75:
+                    # a parameter sweep: edit the *same* System through its public tables and solve again
+                    ops.append({'op': 'edit', 'what': ro.choice(['diameter', 'diameter', 'density', 'kT']), 't': ro.randrange(3),
+                                'k': ro.choice([-1, 1, 1, 2]), 'factor': ro.choice([0.5, 0.8, 1.25])})
             ops.append({'op': 'solve', 'guess': 'prev' if s > 0 and ro.random() < 0.7 else ro.choice(['zeros', 'zeros', 'noise']),
                         'user': simroot.gen_user_solver(ro, n_unknowns), 'via': ro.choice(['prism', 'prism', 'system'])})
             if self.do_c03 and ro.random() < 0.3:
@@ -74,6 +80,8 @@ class World(BaseWorld):
                 ctx.probe('nonpow2_length')
             if spec['domain']['via'] == 'dk':
                 ctx.probe('dk_constructed')
+            if spec['domain'].get('history'):
+                ctx.probe('domain_resized_in_place')
             if len({(p['closure']['cls'], p['closure']['hc']) for p in spec['pairs'].values()}) > 1:
                 ctx.probe('mixed_closures')
             if n > 1 and any((spec.get('bulk') or {}).values()):
@@ -89,9 +97,28 @@ class World(BaseWorld):
                     if op['op'] == 'cost':
                         self.op_cost(pp, spec, system, state, op, step, seed, grid, r_user, masks, ctx, mon)
                         continue
+                    if op['op'] == 'edit':
+                        spec = copy.deepcopy(spec)
+                        t = types[op['t'] % n]
+                        if op['what'] == 'diameter':
+                            sysgen.freeze_explicit_sigmas(spec)
+                            dr = sysgen.domain_dr(spec['domain'])
+                            spec['diameter'][t] = round(max(2 * dr, spec['diameter'][t] + op['k'] * dr), 10)
+                            lib('diameter[]=', system.diameter.__setitem__, t, spec['diameter'][t])
+                        elif op['what'] == 'density':
+                            spec['density'][t] = spec['density'][t] * op['factor']
+                            lib('density[]=', system.density.__setitem__, t, spec['density'][t])
+                        else:
+                            spec['kT'] = round(spec['kT'] * op['factor'], 6)
+                            system.kT = spec['kT']
+                        masks = oracles.core_masks(spec, r_user)
+                        state['P'] = None
+                        ctx.probe('edit_same_system_' + op['what'])
+                        continue
                     if op['op'] == 'regrid':
                         spec = copy.deepcopy(spec)
                         d = spec['domain']
+                        d.pop('history', None)          # the new Domain is constructed directly
                         d['value'] = d['value'] * op['factor'] if d['via'] == 'dr' else d['value'] / op['factor']
                         grid = sysgen.refgrid(spec)
                         system = lib('build_system', sysgen.build_system, pp, spec)
@@ -230,7 +257,8 @@ class World(BaseWorld):
 
     def expected_probes(self, tier):
         return ['last_eval_differs_from_root', 'success_with_large_residual', 'rank3', 'rank2', 'rank1', 'mixed_closures', 'nonpow2_length',
-                'dk_constructed', 'converged', 'guess_previous_solution', 'regrid_same_length', 'bulk_assignment', 'potential_own_sigma', 'converged_krylov', 'converged_hybr', 'converged_lm',
+                'dk_constructed', 'converged', 'guess_previous_solution', 'regrid_same_length', 'bulk_assignment', 'potential_own_sigma', 'edit_same_system_diameter', 'edit_same_system_density',
+                'edit_same_system_kT', 'domain_resized_in_place', 'converged_krylov', 'converged_hybr', 'converged_lm',
                 'converged_anderson', 'converged_broyden1', 'converged_df-sane']
 
     def rule(self):
